@@ -323,6 +323,18 @@ impl Unit {
         &mut self.entries[id.index]
     }
 
+    /// Return the DWARF version that determines the base of file indices.
+    ///
+    /// File index attributes are indices into the file table of the line program,
+    /// which may use a different version than the unit.
+    fn file_index_version(&self) -> u16 {
+        if self.line_program.is_none() {
+            self.version()
+        } else {
+            self.line_program.version()
+        }
+    }
+
     /// Return true if `self.line_program` is used by a DIE.
     fn line_program_in_use(&self) -> bool {
         if self.line_program.is_none() {
@@ -1264,7 +1276,7 @@ impl AttributeValue {
             }
             AttributeValue::FileIndex(val) => {
                 debug_assert_form!(constants::DW_FORM_udata);
-                uleb128_size(val.map(|id| id.raw(unit.version())).unwrap_or(0))
+                uleb128_size(val.map(|id| id.raw(unit.file_index_version())).unwrap_or(0))
             }
         })
     }
@@ -1523,7 +1535,7 @@ impl AttributeValue {
             }
             AttributeValue::FileIndex(val) => {
                 debug_assert_form!(constants::DW_FORM_udata);
-                w.write_uleb128(val.map(|id| id.raw(unit.version())).unwrap_or(0))?;
+                w.write_uleb128(val.map(|id| id.raw(unit.file_index_version())).unwrap_or(0))?;
             }
         }
         Ok(())
